@@ -150,9 +150,100 @@ Lemma doc_fail_closed : forall ext tp grace now timeout o d st,
   end.
 Proof.
   intros ext tp grace now timeout o d st W. unfold collect_doc.
-  destruct (accepts ext gen_metadata_shape d) eqn:A; [|reflexivity]. split.
+  destruct (accepts ext gen_metadata_shape d) eqn:A; [|reflexivity].
+  destruct (negb COLLECT_CHECKS_CURRENT_SNAPSHOT || current_listed d); [|reflexivity]. split.
   - destruct (accepted_metadata_names_all_lists ext d A) as [items [G S]]. exists items. split; [exact G|apply strings_at_spec; exact S].
   - apply gc_safe_all_faults. exact W.
+Qed.
+
+(* ---- the current snapshot.  collect() refuses a metadata whose current_snapshot_id names none of the snapshots it lists:
+   read off the source (Gen/GenNorm.v; false when collect() makes no such check -- then the two lemmas below are unproved) *)
+Lemma collect_checks_current_snapshot : COLLECT_CHECKS_CURRENT_SNAPSHOT = true.
+Proof. reflexivity. Qed.
+
+Lemma dangling_current_refused : forall ext tp grace now timeout o d st,
+  current_listed d = false -> collect_doc ext tp grace now timeout o d st = DocRefused.
+Proof.
+  intros ext tp grace now timeout o d st H. unfold collect_doc. rewrite collect_checks_current_snapshot, H.
+  destruct (accepts ext gen_metadata_shape d); reflexivity.
+Qed.
+
+(* the same in the specification's words: a document with a dangling current_snapshot_id is refused (CURRENT_UNSET_NUM, the
+   number the source compares with, is -1: by computation) *)
+Lemma dangling_not_listed : forall d, dangling_current d -> current_listed d = false.
+Proof.
+  intros d [c [items [Gc [Gs [Nn [N1 Hno]]]]]]. unfold current_listed. rewrite Gc, Gs.
+  apply orb_false_iff. split.
+  - unfold current_unset. destruct c; try exact N1. contradiction.
+  - destruct (existsb (snapshot_has_id c) items) eqn:E; [|reflexivity]. exfalso.
+    apply existsb_exists in E. destruct E as [it [Hin Hid]]. unfold snapshot_has_id in Hid.
+    destruct (py_getitem it gen_snapshot_id_key) as [i|] eqn:Gi; [|discriminate].
+    rewrite (Hno it Hin i Gi) in Hid. discriminate.
+Qed.
+
+Lemma dangling_current_doc_refused : forall ext tp grace now timeout o d st,
+  dangling_current d -> collect_doc ext tp grace now timeout o d st = DocRefused.
+Proof. intros. apply dangling_current_refused. apply dangling_not_listed. assumption. Qed.
+
+Lemma Forall2_in_l : forall (A B : Type) (P : A -> B -> Prop) l m x, Forall2 P l m -> In x l -> exists y, In y m /\ P x y.
+Proof.
+  intros A B P l m x F. induction F as [|a b l m Pab F IH]; intro Hin; [destruct Hin|].
+  destruct Hin as [->|Hin]; [exists b; split; [left; reflexivity|exact Pab]|].
+  destruct (IH Hin) as [y [Hy Py]]. exists y. split; [right; exact Hy|exact Py].
+Qed.
+
+(* a collection that RUNS worked from the manifest list of the document's current snapshot (or the document says that
+   there is no snapshot yet): the current snapshot is one of the listed snapshots, and its list is among the lists the run
+   keeps (doc_lists d; gc_safe_spec for them is doc_fail_closed) *)
+Lemma run_protects_current : forall ext tp grace now timeout o d st r,
+  collect_doc ext tp grace now timeout o d st = DocRun r ->
+  exists c items, py_getitem d gen_current_snapshot_key = Some c /\ py_getitem d gen_snapshots_key = Some (JArr items)
+    /\ (current_unset c = true
+        \/ exists it l, In it items /\ snapshot_has_id c it = true
+                        /\ py_getitem it gen_manifest_list_key = Some (JStr l) /\ In l (doc_lists d)).
+Proof.
+  intros ext tp grace now timeout o d st r H. unfold collect_doc in H.
+  destruct (accepts ext gen_metadata_shape d) eqn:A; [|discriminate].
+  rewrite collect_checks_current_snapshot in H. cbn [negb orb] in H.
+  destruct (current_listed d) eqn:C; [|discriminate]. clear H. unfold current_listed in C.
+  destruct (py_getitem d gen_current_snapshot_key) as [c|]; [|discriminate].
+  destruct (accepted_metadata_names_all_lists ext d A) as [items [G S]]. rewrite G in C.
+  exists c, items. split; [reflexivity|]. split; [exact G|].
+  apply orb_true_iff in C. destruct C as [C|C]; [left; exact C|right].
+  apply existsb_exists in C. destruct C as [it [Hin Hid]].
+  destruct (Forall2_in_l _ _ _ _ _ it (strings_at_spec _ _ _ S) Hin) as [l [Hl Pl]].
+  exists it, l. auto.
+Qed.
+
+(* ---- legacy JSON lists / manifests: the section the document consists of *)
+Lemma gen_list_json_demands_section : demands_list_section gen_list_json_shape gen_list_json_key = true.
+Proof. reflexivity. Qed.
+Lemma gen_manifest_json_demands_section : demands_list_section gen_manifest_json_shape gen_manifest_json_key = true.
+Proof. reflexivity. Qed.
+
+Lemma demands_list_section_sound : forall ext sh sec d,
+  demands_list_section sh sec = true -> accepts ext sh d = true -> exists l, py_getitem d sec = Some (JArr l).
+Proof.
+  intros ext sh sec d D A. unfold demands_list_section in D.
+  destruct (field_shape sec (shape_req sh)) as [s|] eqn:F; [|discriminate].
+  destruct s as [| | | |strict item|]; try discriminate. destruct strict; [|discriminate].
+  destruct (accepts_rec_field ext _ _ _ _ A F) as [fs [x [-> [As Ax]]]].
+  destruct (accepts_strict_seq ext _ _ Ax) as [l [-> _]]. exists l. exact As.
+Qed.
+
+(* a JSON document whose section is missing, null or anything but a list is no list / no manifest *)
+Lemma list_json_section_lost : forall ext d,
+  (forall l, py_getitem d gen_list_json_key <> Some (JArr l)) -> as_list (list_json_content ext d) = None.
+Proof.
+  intros ext d H. unfold list_json_content. destruct (accepts ext gen_list_json_shape d) eqn:A; [|reflexivity]. exfalso.
+  destruct (demands_list_section_sound ext _ _ d gen_list_json_demands_section A) as [l G]. exact (H l G).
+Qed.
+
+Lemma manifest_json_section_lost : forall ext d,
+  (forall l, py_getitem d gen_manifest_json_key <> Some (JArr l)) -> as_manifest (manifest_json_content ext d) = None.
+Proof.
+  intros ext d H. unfold manifest_json_content. destruct (accepts ext gen_manifest_json_shape d) eqn:A; [|reflexivity]. exfalso.
+  destruct (demands_list_section_sound ext _ _ d gen_manifest_json_demands_section A) as [l G]. exact (H l G).
 Qed.
 
 (* ---- manifest lists and manifests given as records *)
@@ -225,4 +316,17 @@ Proof.
   destruct H as [[R [B D]]|[R [B D]]]; [left|right]; (split; [exact R|]).
   - unfold damaged_list. rewrite L, B. eapply list_records_damaged; eauto.
   - unfold damaged_manifest. rewrite L, B. eapply manifest_records_damaged; eauto.
+Qed.
+
+(* a reachable legacy JSON list / manifest that lost its section aborts the collection before the first sweep *)
+Theorem json_section_lost_aborts : forall ext tp grace now timeout o snaps st k ob d,
+  wf_store snaps st -> lookup k st = Some ob ->
+  (ref_list snaps k /\ body ob = list_json_content ext d /\ forall l, py_getitem d gen_list_json_key <> Some (JArr l))
+  \/ (ref_manifest snaps st k /\ body ob = manifest_json_content ext d /\ forall l, py_getitem d gen_manifest_json_key <> Some (JArr l)) ->
+  aborted_before_sweep (gc_run tp grace now timeout o snaps st) /\ r_deleted (gc_run tp grace now timeout o snaps st) = [].
+Proof.
+  intros ext tp grace now timeout o snaps st k ob d W L H. apply (damage_aborts tp grace now timeout o snaps st k W).
+  destruct H as [[R [B D]]|[R [B D]]]; [left|right]; (split; [exact R|]).
+  - unfold damaged_list. rewrite L, B. apply list_json_section_lost. exact D.
+  - unfold damaged_manifest. rewrite L, B. apply manifest_json_section_lost. exact D.
 Qed.
